@@ -226,7 +226,7 @@ PROPS["C20"].update(
     trusted=PROPS["C20"]["trusted"] + ["step functions are seams (None, any integer, any Exception)"])
 
 TRAVERSAL_MODULES = ["contracts.c16", "contracts.node_getters", "contracts.node_decisions", "contracts.node_edges",
-                     "contracts.traversal", "contracts.loop_blocks"]
+                     "contracts.traversal", "contracts.loop_blocks", "contracts.pull_locations"]
 register(
     "C01",
     modules=TRAVERSAL_MODULES,
@@ -254,7 +254,8 @@ register(
                 "worker named in the test (foreign worker => RuntimeError or ignored edge), shared_result_worker_ids names "
                 "exactly the registered workers with a visible PASS result; pull_locations (sources == producers, access "
                 "parameters copied, idempotent, unknown worker rejected): bounded",
-    trusted=["pull_locations is not under an E1 contract (nested loops over dynamic parameter keys)"],
+    trusted=["of pull_locations only two extracted blocks are under E1 contracts (source list of one parent; location "
+             "appended per edge object); the loops around them and the copied access parameters are bounded"],
     undecided_clauses=["restriction matching of workers against vm variants (Cartesian parser, outside /repo)"],
 )
 LEVEL_TEXT["C08"] = ("Worker guards of the decision / pick / readiness functions and the producer set are proved (E1); the "
@@ -262,3 +263,11 @@ LEVEL_TEXT["C08"] = ("Worker guards of the decision / pick / readiness functions
                      "result lists, edges and worker registrations (bounded stand-in, labelled).")
 for _pid in ("C01", "C08"):
     NOT_APPLICABLE.pop(_pid, None)
+
+# schedule-level clauses: the real traversal under a virtual clock over enumerated scenarios (bounded stand-in)
+for _pid in ("C01", "C02", "C03", "C04", "C05", "C08"):
+    PROPS[_pid].setdefault("bounded", [])
+    PROPS[_pid]["bounded"] = list(PROPS[_pid]["bounded"]) + [f"checks.bounded_hooks:traversal_{_pid.lower()}"]
+    LEVEL_TEXT[_pid] = LEVEL_TEXT[_pid] + (" The schedule-level statement is additionally evaluated on the real traversal "
+                                           "under a virtual clock over enumerated scenarios (worker sets, pool populations, "
+                                           "durations, failures, retry settings; bounded stand-in, labelled).")
